@@ -16,7 +16,8 @@ Clauses
   incompatible-reported  each remove / re-kind / value change / base removal of an object that is public under every
                          reading of the table, and that stays publicly reachable through a route no other edit of the
                          script touches  =>  >=1 breakage of the expected kind whose obj.path is the object's canonical
-                         path or <canonical path of a publicly reached container>.<member name>  (DESIGN 5.3)
+                         path or <canonical path of a publicly reached container>.<member name>  (DESIGN 5.3); a removal
+                         is demanded only on such a route where the name really disappears (no inherited fallback)
   public-frontier        every breakage's obj.path designates something publicly reachable (liberal reading) in the
                          old or the new model
   no-abort               load + find_breaking_changes + explain(every style) never raise, whatever unresolvable /
@@ -59,7 +60,7 @@ ASSUMPTIONS = [
     "CLI clause: git 2.39 from PATH with GIT_CONFIG_GLOBAL/SYSTEM=/dev/null; check() is called in-process with cwd = repository",
     "names are unique per scope, member names never collide with sub-module names, empty __all__ is not generated",
 ]
-BUDGET_S = {"quick": 75.0, "thorough": 1100.0}
+BUDGET_S = {"quick": 75.0, "thorough": 1150.0}
 SHRINK_MAX_EXAMPLES = 4000
 
 STYLES = ("oneline", "verbose", "markdown", "github")
@@ -71,6 +72,15 @@ def _strategies():
     from hypothesis import strategies as st
 
     small = st.integers(0, 7)
+
+    def weighted(*pairs):
+        """one_of() with integer weights.  one_of() drops duplicate branches, so a branch is repeated as distinct
+        (identity-mapped) strategy objects."""
+        branches = []
+        for strat, weight in pairs:
+            branches += [strat] + [strat.map(lambda x: x) for _ in range(weight - 1)]
+        return st.one_of(*branches)
+
     func = st.fixed_dictionaries({"k": st.just("func"), "name": small, "sig": small, "doc": st.integers(0, 2)}, optional={"exp": st.booleans()})
     attr = st.fixed_dictionaries({"k": st.just("attr"), "name": small, "val": st.integers(0, 3)}, optional={"exp": st.booleans()})
     cmem = st.one_of(
@@ -81,7 +91,7 @@ def _strategies():
         {
             "k": st.just("cls"),
             "name": small,
-            "bases": st.one_of(st.just([]), st.lists(small, min_size=1, max_size=2), st.lists(small, min_size=1, max_size=2)),
+            "bases": weighted((st.lists(small, min_size=1, max_size=2), 2), (st.just([]), 1)),
             "body": st.lists(cmem, min_size=1, max_size=4),
             "doc": st.integers(0, 1),
         },
@@ -90,7 +100,7 @@ def _strategies():
     imp = st.fixed_dictionaries(
         {
             "k": st.just("imp"),
-            "name": st.one_of(st.none(), st.none(), small),
+            "name": weighted((st.none(), 2), (small, 1)),
             "mod": small,
             "pick": small,
             "prefer": st.sampled_from(["any", "any", "cls", "cls", "imp"]),
@@ -99,26 +109,25 @@ def _strategies():
             "rel": st.sampled_from([False, False, True]),
         }
     )
-    allspec = st.one_of(
-        st.none(),
-        st.fixed_dictionaries({"bits": st.integers(0, 0xFFFF), "subs": st.sampled_from(["public"] * 6 + ["all", "none"])}),
-        st.fixed_dictionaries({"bits": st.integers(0, 0xFFFF), "subs": st.sampled_from(["public"] * 6 + ["all", "none"])}),
+    allspec = weighted(
+        (st.none(), 1),
+        (st.fixed_dictionaries({"bits": st.integers(0, 0xFFFF), "subs": st.sampled_from(["public"] * 6 + ["all", "none"])}), 2),
     )
     modname = st.sampled_from([0, 1, 2, 3, 4, 4, 5, 5])  # private module names twice as likely
     # implementation modules are definition heavy, the root (and "facade" modules) import heavy
-    member_def = st.one_of(func, attr, cls, cls, cls, imp)
-    member_imp = st.one_of(func, attr, cls, imp, imp, imp, imp)
+    member_def = weighted((func, 1), (attr, 1), (cls, 3), (imp, 1))
+    member_imp = weighted((func, 1), (attr, 1), (cls, 1), (imp, 4))
     impl_module = st.fixed_dictionaries(
         {"name": modname, "parent": small, "all": allspec, "body": st.lists(member_def, min_size=2, max_size=6), "doc": st.integers(0, 1)}
     )
     facade_module = st.fixed_dictionaries(
         {"name": modname, "parent": small, "all": allspec, "body": st.lists(member_imp, min_size=2, max_size=6), "doc": st.integers(0, 1)}
     )
-    module = st.one_of(impl_module, impl_module, facade_module)
+    module = weighted((impl_module, 2), (facade_module, 1))
     pkg = st.builds(lambda root, rest: {"mods": [root, *rest]}, facade_module, st.lists(module, min_size=2, max_size=6))
 
     at = st.integers(0, 63)
-    inc_where = st.sampled_from(["direct", "reexport", "reexport", "reexport", "inherit", "inherit", "inherit", "gray", "any"])
+    inc_where = st.sampled_from(["direct", "direct", "reexport", "reexport", "reexport", "inherit", "inherit", "inherit", "gray"])
     incompat = st.fixed_dictionaries(
         {"op": st.sampled_from(["remove", "remove", "rekind", "rekind", "chvalue", "rmbase"]), "at": at, "where": inc_where, "arg": small}
     )
@@ -135,9 +144,9 @@ def _strategies():
         }
     )
     ident = st.fixed_dictionaries({"op": st.just("identity")})
-    script_compat = st.lists(st.one_of(*[compat] * 12, *[dead] * 6, ident), min_size=1, max_size=4)
-    script_mixed = st.lists(st.one_of(incompat, incompat, compat, dead), min_size=1, max_size=4)
-    script = st.one_of(script_compat, script_mixed, script_mixed)
+    script_compat = st.lists(weighted((compat, 10), (dead, 6), (ident, 1)), min_size=1, max_size=4)
+    script_mixed = st.lists(weighted((incompat, 3), (compat, 1), (dead, 1)), min_size=1, max_size=4)
+    script = weighted((script_compat, 1), (script_mixed, 2))
     # the script is drawn before the package (Hypothesis fills the tail of an example with minimal choices quite often);
     # one CLI history for every ~40 in-process histories (a CLI run costs ~10 git sub-processes); the CLI options are
     # always drawn and ignored by "diff" cases (one_of() would not honour a 39:1 weighting of identical branches)
@@ -148,6 +157,7 @@ def _strategies():
             "against": st.sampled_from(["tag", "latest", "sha-branch"]),
             "style": st.sampled_from([None, *STYLES]),
             "verbose": st.booleans(),
+            "color": st.sampled_from([None, None, True, False]),
         }
     )
     return st.fixed_dictionaries({"kind": st.sampled_from(["diff"] * 39 + ["cli"]), "cli": cli_opts, "script": script, "pkg": pkg})
@@ -236,6 +246,14 @@ def analyse(case: dict) -> dict:
         if r["ent"] not in fr.tags:
             r["subsumed"] = True
             continue
+        paths = sorted(fr.acc[r["ent"]])
+        if r["op"] == "remove":
+            # a removal is only demanded where the name really disappears: a removed override / first-in-MRO member
+            # can leave another inherited member of the same name behind (then nothing was removed at that path)
+            paths = [p for p in sorted(fr.via.get(r["ent"], ())) if not _name_exists(npkg, p)]
+            if not paths:
+                r["shadowed"] = True
+                continue
         expectations.append(
             {
                 "op": r["op"],
@@ -243,7 +261,7 @@ def analyse(case: dict) -> dict:
                 "loc": fr.label(r["ent"]),
                 "ekind": opkg.kind(r["ent"]),
                 "kind": M.EXPECTED_KIND[r["op"]],
-                "paths": sorted(fr.acc[r["ent"]]),
+                "paths": paths,
             }
         )
 
@@ -256,7 +274,7 @@ def analyse(case: dict) -> dict:
     classes = []
     classes.append("script:" + ("identity" if all(r["op"] == "identity" for r in applied) else "compatible-only" if compat_only else "has-incompatible"))
     for r in applied:
-        classes.append(f"edit:{r['op']}:{r['loc']}" + (":subsumed" if r.get("subsumed") else ""))
+        classes.append(f"edit:{r['op']}:{r['loc']}" + (":subsumed" if r.get("subsumed") else "") + (":shadowed" if r.get("shadowed") else ""))
     for r in records:
         if r.get("skipped"):
             classes.append(f"edit-skipped:{r['op']}")
@@ -292,6 +310,19 @@ def analyse(case: dict) -> dict:
         "classes": classes,
         "nontrivial": bool(nontrivial),
     }
+
+
+def _name_exists(pkg, path: str) -> bool:
+    """Does <container>.<name> still designate something in this model (own member, sub-module or inherited member)?"""
+    if "." not in path:
+        return path in pkg.ent
+    cont, name = path.rsplit(".", 1)
+    kind = pkg.kind(cont)
+    if kind == "module":
+        return path in pkg.ent
+    if kind == "cls":
+        return name in pkg.all_members(cont)
+    return False
 
 
 def judge(an: dict, breakages: list[tuple[str, str]]) -> list[Fail]:
@@ -430,6 +461,7 @@ def _cli_check(case: dict, an: dict, tmp: Path, in_process: list[tuple[str, str]
             search_paths=[sub],
             allow_inspection=False,
             verbose=opts["verbose"],
+            color=opts.get("color"),
             style=opts["style"],
             what=f"griffe.check({M.ROOT!r}, against={against!r}, base_ref={base_ref!r}, search_paths=[{sub!r}], style={opts['style']!r})",
         )
@@ -454,8 +486,6 @@ def _cli_check(case: dict, an: dict, tmp: Path, in_process: list[tuple[str, str]
                 detail,
             )
         )
-    left = [p.name for p in wt.iterdir()]
-    del left
     return fails
 
 
@@ -506,15 +536,16 @@ def describe(case):
     return key, classes, sample
 
 
-def _is_cyclic_abort(case, fail: Fail) -> bool:
-    return fail.clause == "no-abort" and fail.kind.startswith("raises:CyclicAliasError@")
-
-
 KNOWN: dict = {}
 
 
 def run_shard(ctx) -> None:
     global _TMP_BASE
     _TMP_BASE = str(ctx.tmp)
-    n = ctx.scale(500, 4200)
-    ctx.run_hypothesis(strategy(ctx), check_case, n, describe=describe, salt="")
+    # chunks: Hypothesis keeps generating (only) after the wall budget is spent, so the search is cut into pieces and the
+    # next piece is not started once the budget is gone.  The first piece uses the salt strategy() announces to the shrinker.
+    total, chunk = ctx.scale(500, 8000), ctx.scale(100, 500)
+    done = 0
+    while done < total and not ctx.out_of_budget():
+        ctx.run_hypothesis(strategy(ctx), check_case, min(chunk, total - done), describe=describe, salt="" if done == 0 else f"chunk{done}")
+        done += chunk
